@@ -283,6 +283,12 @@ def check_C08(ctx, rep):
         ok = len(rv) == 1 and rv[0][0] == 'agg' and rv[0][1].endswith('Counter')
         if ok:
             d = dict(rv[0][3])
+            # struct update syntax `..Self::new(operation)`: a field taken from Counter::new(op) is what `new` (judged above) puts there
+            base = {'operation': ('param', 1), 'dist': ('agg', 'core::option::Option', 'None', ()), 'copy': ('const', 'bool', 'false')}
+            for fk, fv in list(d.items()):
+                fv2 = unload(fv)
+                if isinstance(fv2, tuple) and fv2 and fv2[0] == 'fld' and fv2[3] == fk and is_call(unload(fv2[1]), 'Counter::new') and unload(fv2[1])[2][0] == ('param', 1) and cname != 'new':
+                    d[fk] = base[fk]
             ok = d.get('operation') == ('param', 1) and isinstance(d.get('dist'), tuple) and d['dist'][0] == 'agg' and d['dist'][2] == dv and \
                 (dv == 'None' or dict(d['dist'][3]).get('0') == ('param', 2)) and num(d.get('copy')) == cp
         rep.ob('C08.R7', cf, 'constructor:' + cname, ok, 'returns %s' % (shape(rv[0])[:90] if rv else '?'))
